@@ -73,6 +73,14 @@ pub fn run(ctx: &RunCtx, caps: bool) -> Outcome {
             return o;
         }
     }
+    // scoped flag groups (i, -i, s, m, U and combinations) around and inside the fancy constructs
+    {
+        let fp = space(&gen::flag_cfg(), if quick { 3 } else { 4 }, false);
+        let ft = gen::texts(&gen::FLAG_SIGMA, 3);
+        if !stage(ctx, &mut o, &p, "flag groups x fancy constructs, mixed-case texts", &fp, &ft) {
+            return o;
+        }
+    }
     // texts with characters on the UTF-8 length-class boundaries
     {
         let mut small = space(&gen::core_cfg(), 3, false);
@@ -151,7 +159,16 @@ pub fn run(ctx: &RunCtx, caps: bool) -> Outcome {
         t
     };
     let cases = if quick { 200_000 } else { 3_000_000 };
-    stage_random(ctx, &mut o, &p, "random core", &RandCfg::core(), &rtexts, cases, &|_| true);
+    if !stage_random(ctx, &mut o, &p, "random core", &RandCfg::core(), &rtexts, cases, &|_| true) {
+        return o;
+    }
+    {
+        let mut ft = gen::texts(&gen::FLAG_SIGMA, 2);
+        ft.extend(["aAb", "ABa", "a\nB", "bBa", "AAab", "abAB", "a\nb\nA", "BaBa"].iter().map(|s| s.to_string()));
+        if !stage_random(ctx, &mut o, &p, "random core + flag groups", &RandCfg::flagged(), &ft, cases / 2, &|n| n.any(|x| matches!(x, crate::ast::Node::Flags(..)))) {
+            return o;
+        }
+    }
     if !quick && o.violations.is_empty() {
         // the target compares all groups; for C01 only span / existence failures are violations of C01
         super::api::fuzz_stage(ctx, &mut o, &prop(true), "fuzz_diff", crate::fuzzdec::run_diff);
